@@ -82,6 +82,12 @@ struct Run{
       }
       for(unsigned is=0;is<nsc;is++){ double v=r.uniform(-1,1); live->scal_ptr(ix)[is]=v; refs[ix*nsc+is]=v; }
     }
+    // every view holds what was written through it: the views of a freshly initialised solver do not overlap
+    for(unsigned ix=0;ix<nx;ix++){
+      for(unsigned ir=0;ir<nrhos;ir++){ std::vector<double> want=to_components(ref[ix*nrhos+ir]); double* p=live->rho_ptr(ix,ir);
+        for(unsigned k=0;k<nsun*nsun;k++) if(!(std::fabs(p[k]-want[k])<=1e-13)){ c.violation("C10","views:overlap","ini","after initialisation the stored views overlap: a value written through one view was changed by writing through another"); return false; } }
+      for(unsigned is=0;is<nsc;is++) if(live->scal_ptr(ix)[is]!=refs[ix*nsc+is]){ c.violation("C10","views:overlap","ini:scalar","after initialisation a scalar view overlaps another view"); return false; }
+    }
     return true;
   }
   // initial switch settings, applied in a plan-chosen order
@@ -162,7 +168,10 @@ struct Run{
     // clock
     double t_now=live->Get_t(),t_expect=t_ini+sum_dt;
     double ctol=2.3e-16*(std::fabs(t_ini)+sum_dt)*(8+2*(double)steps_total);
-    if(!(std::fabs(t_now-t_expect)<=ctol)){ char b[200]; snprintf(b,sizeof b,"Get_t() is %.17g after evolving, expected t_ini + sum dt = %.17g (tolerance %.3g)",t_now,t_expect,ctol); c.violation("C10","clock:mismatch",numerics?"numerics":"no-numerics",b); return; }
+    bool clock_bad=!(std::fabs(t_now-t_expect)<=ctol);
+    char clockmsg[200]; snprintf(clockmsg,sizeof clockmsg,"Get_t() is %.17g after evolving, expected t_ini + sum dt = %.17g (tolerance %.3g)",t_now,t_expect,ctol);
+    // in a C04 plan the state verdict comes first: an integration over the wrong interval is a C04 matter as well as a clock (C10) matter
+    if(clock_bad && !(prop=="C04" && numerics && !sc.is_sim() && dt>0)){ c.violation("C10","clock:mismatch",numerics?"numerics":"no-numerics",clockmsg); return; }
     if(live->Get_t_initial()!=t_ini){ c.violation("C10","clock:t_ini-changed","evolve","Get_t_initial() changed during Evolve"); return; }
     check_views("evolve",numerics&&c.napply>0);
     if(!c.out->ok) return;
@@ -191,6 +200,7 @@ struct Run{
     else{ double L=prob.lambda(t_before,t_before+dt)+4.0,h=dt/sc.nsteps; tol=100.0*(dt+1)*L*std::pow(L*h,sc.order())*(ym+1)+1e-9; }
     tol+=acc_tol; acc_tol=tol;      // the reference is advanced piecewise: errors of earlier segments are still in the library's state
     if(tol>1e-3){ acc_tol=0; c.ctr->add("probe_closed_form_skipped_loose_tolerance"); for(unsigned ix=0;ix<nx;ix++){ for(unsigned ir=0;ir<nrhos;ir++) ref[ix*nrhos+ir]=from_components(nsun,live->rho_ptr(ix,ir)); for(unsigned is=0;is<nsc;is++) refs[ix*nsc+is]=live->scal_ptr(ix)[is]; } return; }
+    if(clock_bad && tol>1e-3){ c.violation("C10","clock:mismatch","numerics",clockmsg); return; }
     c.ctr->add("closed_form_comparisons");
     for(unsigned ix=0;ix<nx;ix++){
       for(unsigned ir=0;ir<nrhos;ir++){
@@ -203,6 +213,7 @@ struct Run{
       for(unsigned is=0;is<nsc;is++){ double got=live->scal_ptr(ix)[is],want=refs[ix*nsc+is];
         if(!(std::fabs(got-want)<=tol)){ char b[200]; snprintf(b,sizeof b,"node %u scalar %u after Evolve: library %.12g, closed form %.12g (tolerance %.3g)",ix,is,got,want,tol); c.violation(evprop,"state:closed-form-mismatch",sc.name+":scalar",b); return; } }
     }
+    if(clock_bad) c.violation("C10","clock:mismatch","numerics",clockmsg);
   }
 
   // an Evolve that ends in the library's exception (the stepper reports a hard error): nothing may be leaked; the solver is re-initialised afterwards
